@@ -123,7 +123,7 @@ func encodeBarrier(
 // A barrier error is decoded exactly.
 func decodeBarrier(ctx context.Context, msg string, _ []string, payload proto.Message) error {
 	enc, ok := payload.(*errbase.EncodedError)
-	if !ok {
+	if !ok || enc.Error == nil {
 		// If this ever happens, this means some version of the library
 		// (presumably future) changed the payload type, and we're
 		// receiving this here. In this case, give up and let
@@ -136,7 +136,7 @@ func decodeBarrier(ctx context.Context, msg string, _ []string, payload proto.Me
 // Previous versions of barrier errors.
 func decodeBarrierPrev(ctx context.Context, msg string, _ []string, payload proto.Message) error {
 	enc, ok := payload.(*errbase.EncodedError)
-	if !ok {
+	if !ok || enc.Error == nil {
 		return nil
 	}
 	return &barrierErr{smsg: redact.Sprint(msg), maskedErr: errbase.DecodeError(ctx, *enc)}
